@@ -270,6 +270,7 @@ def native_fs_search():
         "src/a.f90": "module a\nend module a\n", "src/b.F": "module b\nend module b\n", "src/skip_gen.f90": "module sg\nend module sg\n",
         "src/deep/c.for": "module c\nend module c\n", "src/deep/d.inc": "integer :: d\n",
         "lib/e.f95": "module e\nend module e\n", "lib/excl/f.f90": "module f\nend module f\n",
+        "lib/excl/deep/h.f90": "module h\nend module h\n", "lib/excl/deep/er/k.f": "module k\nend module k\n",
         "empty/.keep": "", "docs/notes.txt": "n", "src/dir.f90/inner.txt": "a directory that looks like a source file", "other/g.fpp": "module g\nend module g\n",
     }
     configs = [
@@ -279,6 +280,8 @@ def native_fs_search():
         dict(source_dirs=["src", "lib"], excl_paths=["lib/excl"]),
         dict(excl_paths=["lib/excl", "src/a.f90"]),
         dict(excl_paths=["src/**"]),
+        dict(excl_paths=["lib/*"]),
+        dict(excl_paths=["lib/excl"]),
         dict(incl_suffixes=[".inc"]),
         dict(excl_suffixes=["_gen.f90"]),
         dict(source_dirs=["src", "src/deep"], incl_suffixes=[".inc"], excl_suffixes=["_gen.f90"], excl_paths=["src/b.F"]),
